@@ -33,7 +33,7 @@ ASSUMPTIONS = ['workers and descendants ignore the test signal (SIGUSR1) so the 
 
 USR1 = int(signal.SIGUSR1)
 ABSENT = '<absent>'
-STATES = ['active', 'stopped', 'busy']
+STATES = ['active', 'stopped', 'busy', 'killing']
 
 
 def bounds(tier):
@@ -86,6 +86,10 @@ class TWorld(object):
         elif state == 'busy':
             w.watcher('b').warmup_delay = 60.0
             w.request('incr', name='b', nb=2)
+        elif state == 'killing':
+            # a kill of the first worker sits in its grace period: the worker got the stop signal, ignores it, and is
+            # as alive, listed and addressable as its sibling
+            w.request('kill', name='a', pid=own[0], graceful_timeout=50.0).reply()
         self.w = w
         self.n0 = len(k.signal_log)
 
@@ -154,6 +158,15 @@ def reference_targets(tw, case, watcher):
     return tg
 
 
+def optional_targets(tw, case):
+    """A kill request for a worker whose kill is already in flight may join that kill instead of signalling again: the
+    property does not say which, so neither is demanded."""
+    if tw.state != 'killing' or case['cmd'] != 'kill':
+        return set()
+    own = tw.ids['own']
+    return set((p, USR1) for p in [own] + descendants(tw.w.kernel, own, True))
+
+
 def run_target_case(r, tw, case):
     w = tw.w
     k = w.kernel
@@ -197,7 +210,8 @@ def run_target_case(r, tw, case):
             r.check('C18.refused_clean', not sent, lambda: desc() + ': error reply but signals %s were sent' % sent, site, c,
                     fp='error-but-sent-%s' % case['cmd'])
         else:
-            r.check('C18.exact_targets', set(sent) == ref and len(sent) == len(set(sent)),
+            opt = optional_targets(tw, case)
+            r.check('C18.exact_targets', set(sent) - opt == ref - opt and set(sent) <= ref and len(sent) == len(set(sent)),
                     lambda: desc() + ': delivered %s, reference %s' % (
                         sorted((p - PID_BASE, s) for p, s in sent), sorted((p - PID_BASE, s) for p, s in ref)),
                     site, c, fp='targets-%s-%s-%s' % (case['cmd'], case['pid'], case.get('childpid')),
